@@ -1,4 +1,5 @@
-import Qryn.TraceQL.Sem
+import Qryn.TraceQL.Portions
+import Qryn.TraceQL.Grammar
 namespace Driver.C11
 open Qryn Qryn.Sql Qryn.TraceQL
 
@@ -157,11 +158,21 @@ def aorc : AggOracles where
 
 def attrRow? (s : String) : Option AttrRow :=
   match s.splitOn ":" with
-  | [d, k, v, t, sp, ts, du] => do some ⟨← ofHex d, ← ofHex k, ← ofHex v, ← ofHex t, ← ofHex sp, ← ts.toInt?, ← du.toInt?⟩
+  | [d, k, v, t, sp, ts, du] => do some ⟨← ofHex d, ← ofHex k, ← ofHex v, ← ofHex t, ← ofHex sp, ← ts.toInt?, ← du.toInt?, []⟩
   | _ => none
 
 def db? (s : String) : Option TraceDb :=
-  if s = "-" then some ⟨[]⟩ else do some ⟨← (s.splitOn ";").mapM attrRow?⟩
+  if s = "-" then some { attrs := [] } else do some { attrs := ← (s.splitOn ";").mapM attrRow? }
+
+def spanRow? (s : String) : Option SpanRow :=
+  match s.splitOn ":" with
+  | [t, sp, ts, du] => do some ⟨← ofHex t, ← ofHex sp, ← ts.toInt?, ← du.toInt?⟩
+  | _ => none
+
+def dbs? (attrs spans : String) : Option TraceDb := do
+  let d ← db? attrs
+  let sp ← if spans = "-" then some [] else (spans.splitOn ";").mapM spanRow?
+  some { d with spansT := sp }
 
 def bytesLe (a b : Bytes) : Bool := decide (a ≤ b)
 
@@ -317,6 +328,201 @@ def evalReal (c : Ctx) (script : Script) (d : TraceDb) (ast : String) (text : By
         " sql:" ++ idsOut sql ++ " spec:" ++ idsOut spec
   | _ => "BADAST"
 
+/-! ### whole statements: `Sql.SemJ` against `TraceQL.SemWhole` -/
+def isAllScript (script : Script) : Bool :=
+  match script with
+  | [(s, _)] => s.attrs.isNone
+  | _ => false
+
+def subsetB (a b : List Bytes) : Bool := a.all (fun x => b.contains x)
+
+def hexList (l : List Bytes) : String := if l.isEmpty then "-" else ",".intercalate (l.map hexOut)
+
+def outSer (t : TraceOut) : String :=
+  hexOut t.traceId ++ ":" ++ hexList t.spanIds ++ ":" ++ ",".intercalate (t.durs.map toString) ++ ":" ++
+    ",".intercalate (t.tss.map toString) ++ ":" ++ toString t.start
+
+def outsSer (l : List TraceOut) : String := if l.isEmpty then "-" else ";".intercalate (l.map outSer)
+
+/-- the specification of a search on `d` (window of `c`): matching traces, recency, selected span ids -/
+structure Spec where
+  M : List Bytes
+  recOf : Bytes → Int
+  U : Bytes → List Bytes
+  perSel : Bytes → List (List Bytes)
+
+def specOf (c : Ctx) (script : Script) (d : TraceDb) : Spec :=
+  if isAllScript script then
+    { M := dedup ((d.spansT.filter (spanInWindow c)).map (·.traceId)), recOf := allTraceRec c d, U := allTraceSpans c d,
+      perSel := fun tr => [allTraceSpans c d tr] }
+  else
+    { M := matchingTraces orc aorc c d script, recOf := traceRec orc aorc c d script, U := traceSpans orc aorc c d script,
+      perSel := fun tr => (matchedSels (fun s => selMatches orc aorc c d s tr) script).map (fun s => selSpans orc c d s tr) }
+
+/-- `IsTopN` decided -/
+def topNBad (sp : Spec) (n : Option Nat) (K : List Bytes) : Option String :=
+  if K.length != (dedup K).length then some "trace-twice"
+  else if !(subsetB K sp.M) then some "not-described"
+  else if (match n with | some n => decide (n < K.length) | none => false) then some "more-than-limit"
+  else
+    let cut := sp.M.filter (fun m => !K.contains m)
+    if !cut.isEmpty && (match n with | some n => K.length != n | none => true) then some "described-trace-missing"
+    else if cut.any (fun m => K.any (fun k => decide (sp.recOf k < sp.recOf m))) then some "older-kept-newer-cut"
+    else none
+
+def sortedDesc (l : List Int) : Bool :=
+  match l with
+  | [] => true
+  | x :: xs => (xs.all (fun y => decide (y ≤ x))) && sortedDesc xs
+
+def spanSetBad (sp : Spec) (all : Bool) (t : Bytes) (vs : List Bytes) : Option String :=
+  let U := sp.U t
+  if vs.isEmpty then some "no-spans"
+  else if !all && vs.length != (dedup vs).length then some "span-twice"     -- `{}` reads the span table: a span stored twice is there twice
+  else if !(subsetB vs U) then some "span-not-selected"
+  else if 100 < vs.length then some "more-than-100-spans"
+  else if (sp.perSel t).all (fun l => decide (l.length ≤ 100)) && decide ((dedup U).length ≤ 100) && !(subsetB U vs) then some "selected-span-missing"
+  else none
+
+def limitOf (c : Ctx) : Option Nat := if c.limit = 0 then none else some c.limit.toNat
+
+/-- the whole statement `sel` on `d`: `index_grouped` must be a choice of the `limit` most recent described traces
+    with admissible span sets, and the rows of the statement must be `assemble` of it -/
+def judgeWhole (c : Ctx) (script : Script) (d : TraceDb) (sel : Sel) : String :=
+  let db := d.toDb c
+  let env := evalWithsJ orc aorc db [] (selWiths sel)
+  let ig := (env.lookup (.named "index_grouped")).getD []
+  let K : List (Bytes × List Bytes) := ig.filterMap (fun r => match r.get "trace_id", r.get "span_id" with
+    | .str t, .strs vs => some (t, vs) | _, _ => none)
+  let rows := evalStmtJ orc aorc db sel
+  let outs := rows.filterMap rowOut
+  let sp := specOf c script d
+  let ids := K.map (·.1)
+  let detail := " kept:" ++ hexList ids ++ " described:" ++ hexList (sortBy bytesLe sp.M) ++ " rows:" ++ outsSer outs
+  if K.length != ig.length then "DIFF index-grouped-row-shape" ++ detail
+  else match topNBad sp (limitOf c) ids with
+  | some w => "DIFF " ++ w ++ detail
+  | none =>
+    if !(isAllScript script) && !(sortedDesc (ids.map sp.recOf)) then "DIFF not-newest-first" ++ detail   -- `{}` orders index_grouped by the newest of the ≤ 100 kept spans
+    else match K.findSome? (fun k => spanSetBad sp (isAllScript script) k.1 k.2) with
+    | some w => "DIFF " ++ w ++ detail
+    | none =>
+      if rows.length != outs.length then "DIFF statement-row-shape" ++ detail
+      else if outs != assemble K d.spansT (limitOf c) then "DIFF join" ++ detail ++ " expected:" ++ outsSer (assemble K d.spansT (limitOf c))
+      else "OK kept:" ++ toString ids.length ++ " described:" ++ toString sp.M.length ++ " rows:" ++ toString outs.length
+
+def evalWholeReal (c : Ctx) (script : Script) (d : TraceDb) (ast : String) (text : Bytes) : String :=
+  let toks := ast.splitOn ","
+  match pSel (toks.length + 1) toks with
+  | some (sel, []) => if renderSel sel != text then "BADAST" else judgeWhole c script d sel
+  | _ => "BADAST"
+
+def evalWholeModel (c : Ctx) (script : Script) (d : TraceDb) : String :=
+  match plan c script with
+  | .error _ => "ERR"
+  | .ok sel => judgeWhole c script d sel
+
+/-! ### portions -/
+def hashOf (seed : Nat) (tr : Bytes) : Nat := tr.foldl (fun h x => (h * 131 + x.toNat + 7) % 1000003) seed
+
+def idText (t : Bytes) : String := toHex t
+
+/-- the rows the database returns for the statement of the context (portion filter evaluated on the computed columns) -/
+def stmtOf (c : Ctx) (script : Script) (d : TraceDb) (seed : Nat) : String :=
+  let dv := if c.rndMax = 0 then d else d.withPortionCols (hashOf seed) idText c.rndMax.toNat
+  match stmtRows orc aorc dv script c with
+  | .error _ => "ERR"
+  | .ok outs => "ROWS " ++ outsSer outs
+
+/-- the same for the REAL statement (object tree of the Go planner, re-rendered to the bytes the loop sent) -/
+def stmtOfReal (c : Ctx) (d : TraceDb) (seed : Nat) (ast : String) (text : Bytes) : String :=
+  let toks := ast.splitOn ","
+  match pSel (toks.length + 1) toks with
+  | some (sel, []) =>
+    if renderSel sel != text then "BADAST"
+    else
+      let dv := if c.rndMax = 0 then d else d.withPortionCols (hashOf seed) idText c.rndMax.toNat
+      "ROWS " ++ outsSer ((evalStmtJ orc aorc (dv.toDb c) sel).filterMap rowOut)
+  | _ => "BADAST"
+
+/-- the result of a search as a set of traces judged against the specification on the whole database (every index
+    span has its span-table row in the harness databases, so no trace is lost in the join) -/
+def judgeResult (c : Ctx) (script : Script) (d : TraceDb) (outs : List TraceOut) : String :=
+  let sp := specOf c script d
+  let ids := outs.map (·.traceId)
+  let detail := " got:" ++ outsSer outs ++ " described:" ++ hexList (sortBy bytesLe sp.M)
+  match topNBad sp (limitOf c) ids with
+  | some w => "DIFF " ++ w ++ detail
+  | none =>
+    let bad := outs.find? (fun t =>
+      let exp := assemble [(t.traceId, dedup (sp.U t.traceId))] d.spansT none
+      match exp with
+      | [e] => !(sortBy bytesLe e.spanIds == sortBy bytesLe t.spanIds && e.start == t.start &&
+                 sortBy (fun (a b : Int) => decide (a ≤ b)) e.tss == sortBy (fun (a b : Int) => decide (a ≤ b)) t.tss)
+      | _ => true)
+    match bad with
+    | some t => "DIFF trace-spans " ++ hexOut t.traceId ++ detail
+    | none => "OK " ++ outsSer outs
+
+def loopOf (c : Ctx) (script : Script) (d : TraceDb) (seed complexity : Nat) : String :=
+  let n := portionsOf complexity
+  let dv := d.withPortionCols (hashOf seed) idText n
+  let run := fun (cx : Ctx) => stmtRows orc aorc (if cx.rndMax = 0 then d else dv) script cx
+  match searchProcess run idText c complexity with
+  | .error _ => "ERR"
+  | .ok outs => judgeResult c script d outs
+
+/-! ### tag names / tag values -/
+def strCol (t : Table) (col : String) : List Bytes := t.filterMap (fun r => match r.get col with | .str s => some s | _ => none)
+
+def judgeTags (c : Ctx) (script : Script) (d : TraceDb) (sel : Sel) (key : Option Bytes) : String :=
+  match script with
+  | [(s, _)] =>
+    (match s.attrs with
+     | none => "SKIP"
+     | some e =>
+       let rows := evalStmtJ orc aorc (d.toDb c) sel
+       let got := strCol rows (if key.isSome then "val" else "key")
+       let exp := match key with | some k => tagValues orc c d e k | none => tagKeys orc c d e
+       let ok := if c.limit > 0 then got == tagsResult c exp else sortBy bytesLe got == sortBy bytesLe exp
+       (if ok && got.length == rows.length then "OK " else "DIFF ") ++ "sql:" ++ hexList got ++ " spec:" ++ hexList (tagsResult c exp))
+  | _ => "SKIP"
+
+def evalTagsReal (c : Ctx) (script : Script) (d : TraceDb) (ast : String) (text : Bytes) (key : Option Bytes) : String :=
+  let toks := ast.splitOn ","
+  match pSel (toks.length + 1) toks with
+  | some (sel, []) => if renderSel sel != text then "BADAST" else judgeTags c script d sel key
+  | _ => "BADAST"
+
+/-! ### the grammar -/
+def tok? (terms : Array Term) (s : String) : Option Tok :=
+  if s = "(" then some .lp else if s = ")" then some .rp else if s = "and" then some .and else if s = "or" then some .or
+  else do let i ← s.toNat?; some (.term (← terms[i]?))
+
+def terms? (s : String) : Option (List Term) :=
+  if s = "-" then some [] else (s.splitOn ";").mapM (fun t => do
+    let (x, r) ← term? (t.splitOn ",")
+    if r.isEmpty then some x else none)
+
+def expSer : AttrExp → String
+  | .leaf t => "L(" ++ String.ofList (t.key.map (fun b => Char.ofNat b.toNat)) ++ ")"
+  | .paren e => "P[" ++ expSer e ++ "]"
+  | .leafOp t op tl => "L(" ++ String.ofList (t.key.map (fun b => Char.ofNat b.toNat)) ++ ")" ++ (match op with | .and => "&&" | .or => "||" | .none => "~") ++ expSer tl
+  | .parenOp e op tl => "P[" ++ expSer e ++ "]" ++ (match op with | .and => "&&" | .or => "||" | .none => "~") ++ expSer tl
+
+/-- the model parser on the token list against the AST the real parser built (`-` when it built none) -/
+def parseCmp (terms : List Term) (toksS : String) (astS : String) : Option String := do
+  let arr := terms.toArray
+  let ts ← if toksS = "-" then some [] else (toksS.splitOn ",").mapM (tok? arr)
+  let model := match parseExp (ts.length + 2) ts with
+    | some (e, []) => some e
+    | _ => none
+  let real ← if astS = "-" then some none else do
+    let tk := astS.splitOn ","
+    let (e, r) ← attrExp? (tk.length + 1) tk
+    if r.isEmpty then some (some e) else none
+  some ((if model == real then "OK " else "DIFF ") ++ (match model with | some e => expSer e | none => "none"))
+
 def handle : List String → Option String
   | "c11evalreal" :: args => do
     let (c, rest) ← ctx? args
@@ -331,8 +537,54 @@ def handle : List String → Option String
   | "c11tags" :: args => do
     let (c, rest) ← ctx? args
     match rest with
-    | [sc] => do some (out (planTags c (← parseScript sc)))
+    | [kv, sc] => do some (out (planTags c (← str? kv) (← parseScript sc)))
     | _ => none
+  | "c11whole" :: args => do
+    let (c, rest) ← ctx? args
+    match rest with
+    | [sc, db, sp, ast, text] => do some (evalWholeReal c (← parseScript sc) (← dbs? db sp) ast (← ofHex text))
+    | _ => none
+  | "c11wholem" :: args => do
+    let (c, rest) ← ctx? args
+    match rest with
+    | [sc, db, sp] => do some (evalWholeModel c (← parseScript sc) (← dbs? db sp))
+    | _ => none
+  | "c11stmt" :: args => do
+    let (c, rest) ← ctx? args
+    match rest with
+    | [sc, db, sp, seed] => do some (stmtOf c (← parseScript sc) (← dbs? db sp) (← seed.toNat?))
+    | _ => none
+  | "c11stmtreal" :: args => do
+    let (c, rest) ← ctx? args
+    match rest with
+    | [db, sp, seed, ast, text] => do some (stmtOfReal c (← dbs? db sp) (← seed.toNat?) ast (← ofHex text))
+    | _ => none
+  | "c11loop" :: args => do
+    let (c, rest) ← ctx? args
+    match rest with
+    | [sc, db, sp, seed, cx] => do some (loopOf c (← parseScript sc) (← dbs? db sp) (← seed.toNat?) (← cx.toNat?))
+    | _ => none
+  | "c11judge" :: args => do
+    let (c, rest) ← ctx? args
+    match rest with
+    | [sc, db, sp, outs] => do
+      let os ← if outs = "-" then some [] else (outs.splitOn ";").mapM (fun o => match o.splitOn ":" with
+        | [t, vs, ds, ts, st] => do
+          let vs ← if vs = "-" then some [] else (vs.splitOn ",").mapM ofHex
+          let ds ← if ds = "" then some [] else (ds.splitOn ",").mapM String.toInt?
+          let ts ← if ts = "" then some [] else (ts.splitOn ",").mapM String.toInt?
+          some (⟨← ofHex t, vs, ds, ts, ← st.toInt?⟩ : TraceOut)
+        | _ => none)
+      some (judgeResult c (← parseScript sc) (← dbs? db sp) os)
+    | _ => none
+  | "c11tagsem" :: args => do
+    let (c, rest) ← ctx? args
+    match rest with
+    | [sc, db, ast, text, key] => do
+      let k ← if key = "!" then some none else (ofHex key).map some
+      some (evalTagsReal c (← parseScript sc) (← db? db) ast (← ofHex text) k)
+    | _ => none
+  | ["c11parse", terms, toks, ast] => do parseCmp (← terms? terms) toks ast
   | "c11values" :: args => do
     let (c, rest) ← ctx? args
     match rest with
